@@ -231,3 +231,51 @@ Lemma get_test_data_refuted :
 Proof. eexists. split; [vm_compute; reflexivity|]. split; reflexivity. Qed.
 Lemma set_test_data_ok q mc : wf_cc q -> len (q_data q) <= MAX_PDL -> good_r q (set_test_data q mc).
 Proof. intros W L. unfold set_test_data. apply good_r_ack; assumption. Qed.
+
+(* ---- device info and slot data ---- *)
+Lemma get_device_info_ok q model cat ver fp cur cnt start subs sens mc :
+  wf_cc q -> good_r q (get_device_info q model cat ver fp cur cnt start subs sens mc).
+Proof.
+  intros W. unfold get_device_info. destruct (negb (len (q_data q) =? 0)); [nk|].
+  apply good_r_ack; [assumption|]. rewrite !len_app, !len_be_bytes. unfold len; cbn [length].
+  vm_compute. discriminate.
+Qed.
+
+Lemma len_slot_info_bytes sl : forall i, len (slot_info_bytes i sl) = 5 * len sl.
+Proof.
+  induction sl as [|s r IH]; intros i; [reflexivity|].
+  cbn [slot_info_bytes]. rewrite !len_app, !len_be_bytes, IH, !len_cons, len_nil. lia.
+Qed.
+Lemma len_slot_default_bytes sl : forall i, len (slot_default_bytes i sl) = 3 * len sl.
+Proof.
+  induction sl as [|s r IH]; intros i; [reflexivity|].
+  cbn [slot_default_bytes]. rewrite !len_app, !len_be_bytes, IH, !len_cons, len_nil. lia.
+Qed.
+
+(* the active personality exists (true of every PersonalityManager: SetActivePersonality validates) and
+   its slot table fits one response: 5 bytes per slot, i.e. at most 46 slots *)
+Lemma get_slot_info_ok q ps active mc sl :
+  wf_cc q -> active_slots ps active = Some sl -> 5 * len sl <= MAX_PDL ->
+  good q tt (get_slot_info q ps active mc).
+Proof.
+  intros W A L. unfold get_slot_info. destruct (negb (len (q_data q) =? 0)); [nk|].
+  rewrite A. apply good_ack; [assumption|]. rewrite len_slot_info_bytes. exact L.
+Qed.
+Lemma get_slot_defaults_ok q ps active mc sl :
+  wf_cc q -> active_slots ps active = Some sl -> 3 * len sl <= MAX_PDL ->
+  good q tt (get_slot_defaults q ps active mc).
+Proof.
+  intros W A L. unfold get_slot_defaults. destruct (negb (len (q_data q) =? 0)); [nk|].
+  rewrite A. apply good_ack; [assumption|]. rewrite len_slot_default_bytes. exact L.
+Qed.
+Lemma get_slot_description_ok q ps active mc sl :
+  wf_cc q -> active_slots ps active = Some sl -> good q tt (get_slot_description q ps active mc).
+Proof.
+  intros W A. unfold get_slot_description. ext 2%nat q; [nk|].
+  rewrite A. destruct (len sl <=? v); [nk|].
+  destruct (nth_error sl (N.to_nat v)) as [s|]; [|nk].
+  destruct (negb (s_hasdesc s)); [nk|].
+  apply good_ack; [assumption|]. rewrite len_app, len_be_bytes.
+  pose proof (len_str_trunc (s_desc s) MAX_RDM_STRING_LENGTH).
+  unfold MAX_RDM_STRING_LENGTH, MAX_PDL in *. lia.
+Qed.
